@@ -14,7 +14,7 @@ cp /verif/known_findings.json $LAB/verif/ 2>/dev/null; rsync -a --delete /verif/
 export VERIF_HOME=$LAB/verif CARGO_NET_OFFLINE=true
 for item in "$@"; do
   key="${item%%:*}"; props="${item#*:}"
-  patch=/tmp/seedout/$key/patch.diff
+  patch=${SEEDSRC:-/tmp/seedout}/$key/patch.diff
   [ -f "$patch" ] || patch=/verif/seeded/${key/\//-}/patch.diff
   (cd $LAB/repo && git apply "$patch") || { echo "$key APPLYFAIL" >> "$RES"; continue; }
   if ! (cd $LAB/sim && cargo build --release --offline > $LAB/build.log 2>&1); then
